@@ -553,6 +553,8 @@ def r11_8(ctx) -> None:
 
 
 def run(ctx) -> None:
+    from .common import forwarding_discipline
+    ctx.guard(forwarding_discipline, "R11.15", ['parameters', 'password', 'encoding', 'key_type', 'crv_or_size', 'data', 'value'], 46)  # arguments are handed on under their own name (generic routing rule, rules/common.py)
     ctx.guard(fixed_width_ec, "R11.1")
     ctx.guard(r11_2)
     ctx.guard(r11_3)
